@@ -367,7 +367,9 @@ Inductive op :=
 | RPrep (devs : list Z)                    (* Roach: devices with these channel counts *)
 | TPrep (n : Z) | SPrep (n : Z) | EPrep (n : Z)   (* Triangle, SimPulse, Erroring source with n channels *)
 | RcCode (row col rows cols : Z)
-| Files (base today : string) (i : Z) (offs : list Z).   (* PrepareRun + WriteControl START on the last prepared source *)
+| Files (base today : string) (i : Z) (offs : list Z) (mapn : Z).
+  (* PrepareRun + WriteControl START on the last prepared source; projectors on the channels [offs];
+     mapn >= 0: a pixel map with mapn pixels is loaded (MapInternalOnly), mapn < 0: none *)
 
 Inductive obs :=
 | ORejCfg                                              (* Configure failed; Start refused *)
@@ -377,6 +379,7 @@ Inductive obs :=
 | ORc (code r c nr nc : Z)
 | OFiles (pattern : string) (cf : list chanfile) (nfiles : Z)
 | ONoFiles                                             (* nothing prepared, or no channels: PrepareRun refuses *)
+| OStartErr                                            (* WriteControl START returned an error; nothing was set up *)
 | OPanic.
 
 Record state := mkS { s_l : lsrc; s_last : option (tables * string) }.
@@ -416,11 +419,13 @@ Definition step (s : state) (o : op) : state * obs :=
   | EPrep n => prepared (erroring_prepare n) ""%string
   | RcCode row col rows cols =>
       let c := rc_code row col rows cols in keep (ORc c (rc_row c) (rc_col c) (rc_rows c) (rc_cols c))
-  | Files base today i offs =>
+  | Files base today i offs mapn =>
       match s_last s with
       | None => keep ONoFiles
       | Some (t, src) =>
           if zlen (t_names t) <=? 0 then keep ONoFiles
+          else if (0 <=? mapn) && negb (mapn =? zlen (t_names t) / t_cpp t)
+          then keep OStartErr      (* "map error": len(Pixels) != nchan / channelsPerPixel *)
           else let pattern := make_directory base today i in
                match files_of t src pattern offs with
                | Panic => keep OPanic
